@@ -706,6 +706,19 @@ def special_constraint_cases(g, rng):
     return cases
 
 
+def selector_cases(g, rng):
+    """Objects whose one granular marking selects up to ten of the object's OWN paths, of every shape present (top-level
+    property, list element, property of an embedded object inside a list, dictionary key, nested): parse route."""
+    cases = []
+    for cid in g.classes:
+        if not sc.is_toplevel(g, cid):
+            continue
+        x = stixgen.path_marked(g, cid, g.obj(cid, 0, {"safe": True}, optional_p=0.9))
+        if x:
+            cases += sc.route_cases(g, cid, x, {"origin": "valid", "ckind": "path-selectors", "cid": cid}, rng, ["parse"])
+    return cases
+
+
 def offset_cases(g, rng):
     """Ordered-timestamp rules fed with aware datetime OBJECTS of different UTC offsets through the constructors
     (Python-only values, judged by the oracle): wall-clock order and instant order disagree."""
@@ -856,6 +869,7 @@ def check(run):
     cases += witness_cases()
     cases += special_constraint_cases(g, run.rng)
     cases += extension_type_cases(g, run.rng)
+    cases += selector_cases(g, run.rng)
     cases += offset_cases(g, run.rng)
     cases += size_cases(g, run.rng, 1 if quick else 3)
     cases += sc.flag_sequences(g, run.rng, 8 if quick else 40)
